@@ -1,4 +1,4 @@
-import JivaVerif.Lemmas.CtlAdd
+import JivaVerif.Lemmas.CtlRf
 /-!
 # Controller properties: C02, C03, C04, C05, C09, C13, C18 and the controller halves of C01, C07,
 # C10, C16
@@ -481,6 +481,36 @@ theorem c07_gate (c : Ctl) (a : String) (rwc woc : Option (List String)) (ckp : 
 theorem c07_single_wo (rf : Nat) (h : 1 ≤ rf) (ops : List CtlOp) :
     (((Ctl.init rf).run ops).replicas.filter fun r => r.2 = .wo).length ≤ 1 :=
   (ctl_reachable_inv rf h ops).core.oneWO
+
+/-- **C18 / C07 under overlapping AddReplica calls.** `AddReplica` releases the controller lock
+    around `factory.Create`; its two critical sections are the requests `addPre` / `addPost`, which
+    may be interleaved with each other and with every other request in any way (`ops` is arbitrary).
+    In every state reached the replica list never exceeds the replication factor, no address appears
+    twice and at most one replica is rebuilding.  (The bound needed the repair 8ee11b8: the
+    replication factor is verified again once the lock is re-taken.) -/
+theorem c18_overlapping_adds (rf : Nat) (h : 1 ≤ rf) (ops : List CtlOp) :
+    ((Ctl.init rf).run ops).replicas.length ≤ rf ∧
+    (((Ctl.init rf).run ops).replicas.map (·.1)).Nodup ∧
+    (((Ctl.init rf).run ops).replicas.filter fun r => r.2 = .wo).length ≤ 1 := by
+  have inv := ctl_reachable_inv rf h ops
+  have e : ((Ctl.init rf).run ops).rf = rf := run_rf ops _
+  have l := inv.core.lenRf
+  rw [e] at l
+  exact ⟨l, inv.core.nodup, inv.core.oneWO⟩
+
+/-- two additions overlapping inside `Create` with RF 3 and two RW replicas: the first attaches and is
+    promoted, the second is refused when it comes back (before 8ee11b8 it was attached as a fourth) -/
+example :
+    let ops : List CtlOp :=
+      [.register ⟨"a", "ua", 5, false⟩ true true "a", .register ⟨"b", "ub", 3, false⟩ true true "a",
+       .start "tcp://a:9502" true 1048576 true "NA" true (some 5) CkEnv.none,
+       .add "tcp://b:9502" none true [] true true CkEnv.none,
+       .verify "tcp://b:9502" (some ["h1", "s1"]) (some ["h0", "s1"]) (some "") (some 5) true true CkEnv.none,
+       .addPre "tcp://c:9502" none, .addPre "tcp://d:9502" none,
+       .addPost "tcp://c:9502" none true [] true true CkEnv.none,
+       .verify "tcp://c:9502" (some ["h2", "s2", "s1"]) (some ["h0", "s2", "s1"]) (some "") (some 5) true true CkEnv.none]
+    (((Ctl.init 3).run ops).step (.addPost "tcp://d:9502" none true [] true true CkEnv.none)).2 = .refused ∧
+    ((Ctl.init 3).run ops).replicas.length = 3 := by decide
 
 /-! Non-vacuity: a reachable state with two RW replicas and one rebuilding, RF 3, reached through
     register / start / add / verify / add, then a write that fails on one RW replica. -/
